@@ -680,6 +680,7 @@ func Main(args []string) int {
 			cargs = append(cargs, "-reload=false")
 		}
 		cmd := exec.Command(os.Args[0], cargs...)
+		cmd.Dir = wd // a relative queue path (site class RP, kind "relative") lands in the scratch directory, not where the check was started
 		cmd.Env = append(os.Environ(), "DD_API_KEY=x")
 		stdout, _ := cmd.StdoutPipe()
 		var stderr strings.Builder
